@@ -13,7 +13,7 @@ import (
 
 func init() {
 	Register(&Property{ID: "C07", Run: runC07,
-		Rule: "one real engine, 2-6 rounds of connect -> logon (peer with/without ResetSeqNumFlag) -> traffic incl. SequenceReset in gap-fill and reset mode with NewSeqNo below/at/above the expected number -> {peer logout | cut}, for every combination of ResetOnLogon/ResetOnLogout/ResetOnDisconnect/RefreshOnLogon, both roles, all BeginStrings, memory/file/SQL stores; oracle on the counters, the stored messages and the store-call stream (no Reset outside an agreed point). Non-trivial: at least two completed logons and one ended connection; distinct: canonical trace hash"})
+		Rule: "one real engine, 2-6 rounds of connect -> logon (peer with/without ResetSeqNumFlag) -> traffic incl. SequenceReset in gap-fill and reset mode with NewSeqNo below/at/above the expected number -> {peer logout | cut}, for every combination of ResetOnLogon/ResetOnLogout/ResetOnDisconnect/RefreshOnLogon, both roles, all BeginStrings, memory/file/SQL stores; oracle on the counters, the stored messages and the store-call stream (no Reset outside an agreed point); Logons refused by the application (FromAdmin returns RejectLogon); the store refuses the write of the Logout reply. Non-trivial: at least two completed logons and one ended connection; distinct: canonical trace hash"})
 }
 
 type c07Snap struct {
